@@ -14,7 +14,7 @@ import torch.nn.functional as F
 
 from deepali.core import functional as U
 from deepali.core.grid import Axes, Grid
-from deepali.core.linalg import as_homogeneous_matrix
+from deepali.core.linalg import as_homogeneous_matrix, homogeneous_matmul
 from deepali.core.typing import Device
 from deepali.data.flow import FlowFields
 from deepali.modules import DeviceProperty
@@ -331,6 +331,12 @@ class SpatialTransform(DeviceProperty, Module, metaclass=ABCMeta):
         # - (N, D, D + 1): Affine transformation, including translation.
         if data.ndim == 3:
             assert self.linear
+            axes = Axes.from_grid(grid)
+            if axes != self.axes() or not grid.same_domain_as(self.grid()):
+                # Express matrix with respect to the cube of the output grid
+                pre = grid.transform(axes, self.axes(), to_grid=self.grid())
+                post = self.grid().transform(self.axes(), axes, to_grid=grid)
+                data = homogeneous_matmul(post.to(data), data, pre.to(data))
             data = U.affine_flow(data, grid)
         # Non-rigid deformation tensor as displacement field with shape (N, D, ..., X)
         else:
